@@ -49,6 +49,23 @@ ORACLE_PREAMBLE = ("From H2V Require Import Base.Tac Base.Bytes Ref.Rfc7541Block
                    "Local Open Scope N_scope.\n" + PACK +
                    "Definition oracle_ok c := (oracle_hpack c =? 0)%N.\n")
 
+# model check and oracle on the same parsed cases (parsing is the expensive part)
+BOTH_PREAMBLE = ("From H2V Require Import Base.Tac Base.Bytes Model.HpackInt Model.HpackDec Ref.Rfc7541Block.\n"
+                 "Local Open Scope N_scope.\n" + PACK + """
+Definition risky_queue (q : list N) : bool :=
+  match q with _ :: _ :: _ => negb (last q 0 =? fold_right N.max 0 q)%N | _ => false end.
+Fixpoint to_oracle (bl : list block_rec) : list oracle_block :=
+  match bl with
+  | [] => []
+  | (queued, frags, (fs, v, _, (entries, size, _))) :: more =>
+    if risky_queue queued then []
+    else (queued, concat frags, match v with VOk => true | _ => false end, fs, entries, size) :: to_oracle more
+  end.
+Definition oracle_of_case (c : list (list N * option (list N)) * N * list block_rec) : N :=
+  let '(huff, size, blocks) := c in oracle_hpack (huff, size, to_oracle blocks).
+Definition oracle_ok c := (oracle_of_case c =? 0)%N.
+""")
+
 ORACLE_CLASSES = {
     1: "accepts-block-rfc-rejects",
     2: "different-header-list",
@@ -202,6 +219,67 @@ def model_failing(tag, cases, shard=None):
     return common.coq_eval_failing(tag, PREAMBLE, "check_hpack_dec", terms, shard=shard)
 
 
+def eval_both(tag, cases, with_oracle=True):
+    """one coqc run per shard evaluating the model check and the oracle on the same terms.
+    Returns (indices where model and implementation disagree, [(index, oracle code != 0)], error log)."""
+    import concurrent.futures as cf
+    import re
+    import shutil
+    if not cases:
+        return [], [], None
+    terms = [case_term(c) for c in cases]
+    total = sum(len(t) for t in terms)
+    shard = max(1, min(250, int(len(terms) * 1.2e5 / max(total, 1))))
+    d = os.path.join(common.CASES, tag)
+    shutil.rmtree(d, ignore_errors=True)
+    os.makedirs(d, exist_ok=True)
+    check = "check_with_model" if USE_HUFFMAN_MODEL else "check_hpack_dec"
+    pre = BOTH_PREAMBLE
+    if USE_HUFFMAN_MODEL:
+        pre = pre.replace("Model.HpackDec Ref", "Model.HpackDec Model.Huffman Ref") + PREAMBLE_HUFFMODEL.split(PACK)[1]
+    jobs = []
+    for si in range(0, len(terms), shard):
+        fn = os.path.join(d, "cases_%s_%d.v" % (re.sub(r"\W", "_", tag), si // shard))
+        with open(fn, "w") as f:
+            f.write(pre + "\n")
+            f.write("Definition the_cases := [\n  " + ";\n  ".join(terms[si:si + shard]) + "\n].\n")
+            f.write('Goal True. idtac "@@RESULT1". Abort.\n')
+            f.write("Eval vm_compute in (H2V.Base.Bytes.failing (%s) the_cases).\n" % check)
+            f.write('Goal True. idtac "@@RESULT2". Abort.\n')
+            if with_oracle:
+                f.write("Eval vm_compute in (map oracle_of_case the_cases).\n")
+            else:
+                f.write("Eval vm_compute in (@nil N).\n")
+            f.write('Goal True. idtac "@@END". Abort.\n')
+        jobs.append((si, fn))
+
+    def run(job):
+        si, fn = job
+        rc, out, dt = common.sh(["coqc", "-noglob", "-Q", common.COQ, "H2V", fn], cwd=d, timeout=900)
+        return si, rc, out
+
+    def idx(body, si):
+        m = re.search(r"=\s*\[(.*?)\]\s*:\s*list N", body.replace("\n", " "), re.S)
+        if not m:
+            return None
+        return [si + int(t) for t in re.findall(r"\d+", m.group(1).replace("%N", ""))]
+
+    mf, of, err = [], [], None
+    with cf.ThreadPoolExecutor(max_workers=common.NPROC) as ex:
+        for si, rc, out in ex.map(run, jobs):
+            if rc != 0 or "@@END" not in out:
+                err = (err or "") + out[-3000:]
+                continue
+            a = idx(out.split("@@RESULT1", 1)[1].split("@@RESULT2", 1)[0], si)
+            b = idx(out.split("@@RESULT2", 1)[1].split("@@END", 1)[0], 0)
+            if a is None or b is None:
+                err = (err or "") + "unparsed: " + out[-1500:]
+                continue
+            mf.extend(a)
+            of.extend((si + k, code) for k, code in enumerate(b) if code != 0)
+    return sorted(mf), sorted(of), err
+
+
 def oracle_failing(tag, cases, shard=None):
     if not cases:
         return [], None
@@ -295,8 +373,8 @@ def oracle_objects(h):
     cs = replay([h])
     if not cs:
         return False
-    failing, err = oracle_failing("hpackdec_shrink_o", cs)
-    return bool(failing) and not err
+    mf, of, err = eval_both("hpackdec_shrink_o", cs)
+    return bool(of) and not err
 
 
 # ------------------------------------------------------------------------------------------
@@ -304,7 +382,7 @@ def oracle_objects(h):
 
 def plan(tier):
     if tier == "quick":
-        return {"valid": 260, "mutate": 260, "random": 80, "fixtures": 6, "ints": 1}
+        return {"valid": 240, "mutate": 260, "random": 80, "fixtures": 5, "ints": 1}
     return {"valid": 8000, "mutate": 9000, "random": 3000, "fixtures": 0, "ints": 3}   # fixtures 0 = all
 
 
@@ -317,28 +395,24 @@ def known_classes():
     return res
 
 
-def judge(rep, c, what):
-    """decide with the oracle whether a history is a property violation; report accordingly.
-    Returns True when a failing input was reported."""
-    code = oracle_code(c)
-    if code > 0:
-        cls = ORACLE_CLASSES.get(code, "oracle-%d" % code)
-        small = shrink(c, lambda h: oracle_objects(h))
-        sc = replay([small])
-        payload = {"class": cls, "what": what, "history": small,
-                   "implementation": sc[0]["blocks"] if sc else None,
-                   "oracle_code": code,
-                   "reference": "Ref.Rfc7541Block.oracle_hpack (RFC 7541 reference decoder evaluated in Coq)"}
-        kn = known_classes()
-        if cls in kn:
-            rep.known("C11/%s: %s" % (cls, kn[cls].get("title", "")))
-            return True
-        rep.violation("failing-input", payload)
+def judge(rep, c, code, what, budget):
+    """A history the oracle objects to (code != 0) is a violation of C11 by the implementation:
+    report it (shrunk), or note the known finding of that class.  Returns True."""
+    cls = ORACLE_CLASSES.get(code, "oracle-%d" % code)
+    kn = known_classes()
+    if cls in kn:
+        rep.known("C11/%s: %s" % (cls, kn[cls].get("title", "")))
         return True
-    return False
+    small = shrink(c, oracle_objects, budget=budget)
+    sc = replay([small])
+    rep.violation("failing-input", {
+        "class": cls, "what": what, "history": small,
+        "implementation": sc[0]["blocks"] if sc else None, "oracle_code": code,
+        "reference": "Ref.Rfc7541Block.oracle_hpack (RFC 7541 reference decoder evaluated in Coq)"})
+    return True
 
 
-def correspond_hpackdec(rep, tier, seed):
+def gather(tier, seed, with_extra=True):
     p = plan(tier)
     streams = []
     corpus = corpus_inputs()
@@ -347,34 +421,42 @@ def correspond_hpackdec(rep, tier, seed):
     for mode in ("valid", "mutate", "random"):
         cs, summary = run_mode(mode, seed, p[mode])
         streams.append((mode, cs, summary))
-    cs, summary = run_mode("fixtures", seed, p["fixtures"], timeout=1800)
-    streams.append(("fixtures", cs, summary))
-    cs, summary = run_mode("ints", seed, p["ints"], timeout=1800)
-    streams.append(("ints", cs, summary))
+    if with_extra:
+        cs, summary = run_mode("fixtures", seed, p["fixtures"], timeout=1800)
+        streams.append(("fixtures", cs, summary))
+        cs, summary = run_mode("ints", seed, p["ints"], timeout=1800)
+        streams.append(("ints", cs, summary))
+    return streams
 
+
+def evaluate(rep, tier, streams, reason=None):
+    """model check + oracle on every stream; reports; returns True when a failing input
+    (property violation by the implementation) was reported or noted as known."""
+    budget = 14 if tier == "quick" else 60
+    found = False
+    o_total = o_nontrivial = o_fail = 0
+    judged = set()
     for name, cases, summary in streams:
-        failing, err = model_failing("hpackdec_" + name, cases)
+        mfail, ofail, err = eval_both("hpackdec_" + name, cases, with_oracle=(name != "ints"))
         if err:
             rep.violation("broken-correspondence", {"what": "coqc failed on generated hpackdec cases (%s)" % name,
                                                     "log": err[-3000:]}, no_input=True)
         nontrivial = len({json.dumps([b["frags"] for b in c["blocks"]]) for c in cases
                           if any(b["fields"] for b in c["blocks"])})
-        fixture_mismatch = 0
         if name == "fixtures":
             # the stories also say which headers to expect: compare directly
+            bad = 0
             for c in cases:
-                exp = c.get("expect", [])
-                for b, e in zip(c["blocks"], exp):
-                    got = [[bytes(n).decode("latin-1"), bytes(v).decode("latin-1")] for n, v in b["fields"]]
-                    want = [[bytes(n).decode("latin-1"), bytes(v).decode("latin-1")] for n, v in e]
-                    if b["verdict"] != "Ok" or got != want:
-                        fixture_mismatch += 1
-            if fixture_mismatch:
-                rep.violation("failing-input", {"class": "fixture-story-mismatch", "count": fixture_mismatch,
+                for b, e in zip(c["blocks"], c.get("expect", [])):
+                    if b["verdict"] != "Ok" or [list(map(list, f)) for f in b["fields"]] != [list(map(list, f)) for f in e]:
+                        bad += 1
+            if bad:
+                found = True
+                rep.violation("failing-input", {"class": "fixture-story-mismatch", "count": bad,
                                                 "what": "decoder output differs from the expected headers of a fixture story"})
         rep.correspondences.append({
             "name": "hpackdec/" + name, "cases": len(cases), "nontrivial": nontrivial,
-            "blocks": sum(len(c["blocks"]) for c in cases), "disagreements": len(failing),
+            "blocks": sum(len(c["blocks"]) for c in cases), "disagreements": len(mfail),
             "distribution": summary,
             "rule": "a case is a history of header blocks fed to one hpack::Decoder (queued size updates, "
                     "1-4 fragments per block fed like framed_read.rs); compared per block: headers emitted, verdict "
@@ -383,57 +465,48 @@ def correspond_hpackdec(rep, tier, seed):
         rep.samples.extend([{"stream": name, "size": c["size"], "blocks": [
             {"frags": b["frags"], "verdict": b["verdict"], "fields": len(b["fields"])} for b in c["blocks"][:2]]}
             for c in cases[:2]])
-        for i in failing[:3]:
+        ocodes = dict(ofail)
+        for i in mfail[:3]:
             c = cases[i]
-            if judge(rep, c, "model and implementation disagree; the oracle objects to the implementation"):
+            if i in ocodes:
+                # the implementation itself violates the property here; the model follows the code
+                # it was written from, so this is reported as the implementation's failing input
+                found = judge(rep, c, ocodes[i], "model and implementation disagree and the RFC oracle objects to the "
+                              "implementation (stream %s)" % name, budget) or found
                 continue
-            small = shrink(c, model_disagrees)
+            small = shrink(c, model_disagrees, budget=budget)
             sc = replay([small])
             rep.violation("broken-correspondence",
                           {"what": "model (Model/HpackDec.v) and implementation disagree; the RFC oracle has no objection",
                            "stream": name, "history": small, "implementation": sc[0]["blocks"] if sc else None},
                           no_input=True)
-    # the oracle always runs as a cheap extra on the same kind of inputs
-    search_hpackdec(rep, tier, seed, reason=None, streams=streams)
-
-
-def search_hpackdec(rep, tier, seed, reason=None, streams=None):
-    """Search for an input on which the implementation violates C11, judged by the reference
-    decoder.  Returns True when one was reported."""
-    if streams is None:
-        p = plan(tier)
-        streams = []
-        corpus = corpus_inputs()
-        if corpus:
-            streams.append(("corpus", replay(corpus), {}))
-        for mode in ("valid", "mutate", "random"):
-            cs, summary = run_mode(mode, int(seed) + 7919, p[mode])
-            streams.append((mode, cs, summary))
-    found = False
-    total = nontrivial = failures = 0
-    reported = set()
-    for name, cases, summary in streams:
-        if name in ("ints",):
-            continue
-        failing, err = oracle_failing("hpackdec_oracle_" + name, cases)
-        if err:
-            rep.violation("broken-correspondence", {"what": "coqc failed on the hpackdec oracle cases (%s)" % name,
-                                                    "log": err[-3000:]}, no_input=True)
-        total += len(cases)
-        nontrivial += sum(1 for c in cases if any(b["verdict"] == "Ok" and b["fields"] for b in c["blocks"]))
-        failures += len(failing)
-        for i in failing:
-            code = oracle_code(cases[i])
-            if code in reported:
-                continue
-            reported.add(code)
-            if judge(rep, cases[i], "reference decoder objects (stream %s%s)" % (name, ", after " + reason if reason else "")):
-                found = True
-    rep.oracle_runs.append({"name": "hpackdec/rfc7541-reference-decoder", "cases": total, "nontrivial": nontrivial,
-                            "failures": failures,
-                            "rule": "Ref.Rfc7541Block.oracle_hpack on every history: accepted blocks must be accepted by the "
-                                    "reference with the same headers and table, table size within the advertised limit"})
+        if name != "ints":
+            o_total += len(cases)
+            o_nontrivial += sum(1 for c in cases if any(b["verdict"] == "Ok" and b["fields"] for b in c["blocks"]))
+            o_fail += len(ofail)
+            for i, code in ofail:
+                if code in judged:
+                    continue
+                judged.add(code)
+                found = judge(rep, cases[i], code, "RFC 7541 reference decoder objects (stream %s%s)" % (
+                    name, ", searched after " + reason if reason else ""), budget) or found
+    rep.oracle_runs.append({"name": "hpackdec/rfc7541-reference-decoder", "cases": o_total, "nontrivial": o_nontrivial,
+                            "failures": o_fail,
+                            "rule": "Ref.Rfc7541Block.oracle_hpack on every history up to its first rejected block: an accepted "
+                                    "block must be accepted by the reference decoder with the same headers and the same table, "
+                                    "the table must be within the advertised limit and a required size update present; "
+                                    "non-trivial = an accepted block with at least one header"})
     return found
+
+
+def correspond_hpackdec(rep, tier, seed):
+    evaluate(rep, tier, gather(tier, seed))
+
+
+def search_hpackdec(rep, tier, seed, reason=None):
+    """Search for an input on which the implementation violates C11, judged by the reference
+    decoder (fresh seed).  Returns True when one was reported."""
+    return evaluate(rep, tier, gather(tier, int(seed) + 7919, with_extra=False), reason=reason)
 
 
 if __name__ == "__main__":
